@@ -208,7 +208,9 @@ def cmpTok (cfg : Cfg) (i : Nat) (th tb : Tok) : Cmp :=
   | .word vh, .word vb =>
     if vh == vb then .ok 0
     else if isName && valueMatch cfg.bval cfg.hval vb vh then
-      (if pgFold vh == vh then .ok 1
+      (if pgReserved.contains (String.ofList (pgFold vh)) then
+         .error ("keyword-as-identifier", s!"at token {i}: the user's name {tokBrief th} is written unquoted and is a PostgreSQL reserved key word: the server reads a key word token, not an identifier")
+       else if pgFold vh == vh then .ok 1
        else .error ("case-folded-identifier", s!"at token {i}: unquoted identifier {tokBrief th} is read back lower-cased by the server"))
     else mism "shape-mismatch" i th tb
   | .qident vh, .qident vb =>
